@@ -21,6 +21,25 @@ def subMask (r f : Nat) : Bool := r &&& f == r
 def sandboxOp (flags f : Nat) : Option Nat :=
   if flags &&& capSandbox != 0 then none else some (flags ||| f)
 
+/-- corelib.c `janet_core_sandbox`, the `(sandbox & keywords)` core function: each argument is looked up in
+    `sandbox_options[]` by a linear scan that stops at the first match (`tbl`: the regenerated table `Gen.Sandbox.options`,
+    equal to `Cap.keywordTable` by `gen_tables`); its mask is or-ed into a local that starts at 0; an unknown keyword panics
+    before anything is changed; then `janet_sandbox(flags)`. -/
+def kwLookup : List (String × Nat) → String → Option Nat
+  | [], _ => none
+  | (k, m) :: t, kw => if k == kw then some m else kwLookup t kw
+
+def sandboxMask (tbl : List (String × Nat)) (acc : Nat) : List String → Option Nat
+  | [] => some acc
+  | k :: ks => match kwLookup tbl k with
+               | some m => sandboxMask tbl (acc ||| m) ks
+               | none => none
+
+def sandboxCfun (tbl : List (String × Nat)) (flags : Nat) (kws : List String) : Option Nat :=
+  match sandboxMask tbl 0 kws with
+  | some m => sandboxOp flags m
+  | none => none
+
 /-- vm.c `janet_sandbox_assert`: returns (`true`) iff no capability of `m` is disabled. -/
 def assertPasses (flags m : Nat) : Bool := flags &&& m == 0
 
@@ -66,6 +85,8 @@ inductive Op where
   | modeUpd (keep : Nat) (or : Nat)     -- … := (… &&& keep) ||| or   (assignment to one of two variables packed in the word)
   | assertMd (shift : Nat)              -- call of janet_sandbox_assert with the tracked *mask variable* (`md >>> shift`):
                                         -- `x = 0; x |= C1; if (…) x |= C2; janet_sandbox_assert(x)`
+  | modeGuard (v : Nat) (eq : Bool)     -- control passes only when `(md == v) == eq`: one arm of `p ? A : B` where `p` is the
+                                        -- tracked parameter (`Cap.paramModes`)
   deriving Repr, DecidableEq
 
 structure Node where
@@ -137,6 +158,8 @@ inductive Ex : Bool → Nat → Nat → Nat → Nat → Nat → Nat → Prop
       Ex false s F ((md &&& kp) ||| o) n' F' md' → Ex false n F md n' F' md'
   | assertMd {n F md s n' F' md' sh} : n < G.size → (G.node n).op = .assertMd sh → assertPasses F (md >>> sh) = true →
       s ∈ (G.node n).succs → Ex false s F md n' F' md' → Ex false n F md n' F' md'
+  | modeGuard {n F md s n' F' md' v eq} : n < G.size → (G.node n).op = .modeGuard v eq → ((md == v) == eq) = true →
+      s ∈ (G.node n).succs → Ex false s F md n' F' md' → Ex false n F md n' F' md'
   | havoc {n F md F1 s n' F' md'} : n < G.size → (G.node n).op = .havoc → Ex true 0 F 0 0 F1 0 →
       s ∈ (G.node n).succs → Ex false s F1 md n' F' md' → Ex false n F md n' F' md'
   | call {n F md g m0 r F1 mdr s n' F' md'} : n < G.size → (G.node n).op = .call g m0 →
@@ -174,6 +197,7 @@ def caseOK (need : String → String → Nat → List Nat) (G : Graph) (C : Cert
   | .modeOr x => nd.succs.all (fun s => cover (C.k s) (m ||| x) (fun g' => imp g' gs))
   | .modeUpd kp o => nd.succs.all (fun s => cover (C.k s) ((m &&& kp) ||| o) (fun g' => imp g' gs))
   | .assertMd sh => nd.succs.all (fun s => cover (C.k s) m (fun g' => g' &&& (m >>> sh) != 0 || imp g' gs))
+  | .modeGuard v eq => !((m == v) == eq) || nd.succs.all (fun s => cover (C.k s) m (fun g' => imp g' gs))
   | .havoc => nd.succs.all (fun s => cover (C.k s) m (fun _ => false))
   | .call g m0 => cover (C.k (G.fnEntry g)) m0 (fun g' => imp g' gs) &&
       nd.succs.all (fun s => cover (C.k s) m (fun g' => (C.isPure g && imp g' gs) || imp g' (C.fpost g)))
@@ -250,11 +274,41 @@ def tableEq (a b : List (String × Nat)) : Bool := a == b
 def definesOK (defs spec : List (String × Nat)) : Bool :=
   spec.all (fun p => defs.contains p) && defs.all (fun p => spec.contains p)
 
+/-- every capability of the header (`JANET_SANDBOX_*` single bits in `defs`) can be disabled on its own by some keyword of
+    the table, and the keyword `all` disables every one of them -/
+def keywordsCover (tbl defs : List (String × Nat)) : Bool :=
+  (defs.filter (fun d => d.1.startsWith "JANET_SANDBOX_")).all (fun d =>
+    tbl.any (fun o => o.2 == d.2) &&
+    (match kwLookup tbl "all" with
+     | some a => subMask d.2 a
+     | none => false))
+
 /-- the flag word is written only by: janet_init (zero, a fresh VM), janet_sandbox (or-in), janet_go_thread_subr
-    (copy of the parent's word), and the embedding API janet_vm_load (whole-VM restore; not reachable from core functions) -/
+    (copy of the parent's word: `janet_init(); flags = msg->argi`), and the embedding API janet_vm_load (whole-VM restore; not
+    reachable from core functions).  The list has EVERY store to the word found in the IR, every use of its address other
+    than load/store (`addr`), every access to the field through a JanetVM pointer (`viaptr`) and every whole-VM overwrite;
+    a store of any other shape has kind `other`. -/
 def flagWritesOK (ws : List (String × String)) : Bool :=
   ws.all (fun w => [("janet_init", "zero"), ("janet_sandbox", "or"), ("janet_go_thread_subr", "copy"),
                     ("janet_vm_load", "vmcopy")].contains w) &&
   ws.contains ("janet_sandbox", "or") && ws.contains ("janet_go_thread_subr", "copy")
+
+/-- Shape of thread start (ev.c), regenerated by tools/gen/sandbox.py `thread_start_shape`: the function with the `copy`
+    store runs `janet_init` and then sets the flag word from the `argi` field of its message; EVERY site that hands that
+    function to a spawner stores the *current* flag word of the calling thread into that field (or passes it as the `argi`
+    argument of janet_ev_threaded_await, which forwards it).  This is `SysOp.spawn`: the child starts with its parent's
+    word.  Any other use of the function (direct call, address stored elsewhere, a hand-over whose `argi` is not a load of
+    the flag word) is listed with a different fact and rejected. -/
+def threadStartFacts : List String := [
+  "janet_init; flags := msg.argi",
+  "janet_ev_threaded_call: msg.argi := flags",
+  "janet_ev_threaded_await: argi := flags",
+  "msg.argi := parameter argi; janet_ev_threaded_call(fp, msg)"]
+
+def threadStartOK (ts : List (String × String)) : Bool :=
+  ts.all (fun t => threadStartFacts.contains t.2) &&
+  ts.contains ("janet_go_thread_subr", "janet_init; flags := msg.argi") &&
+  ts.any (fun t => t.2 == "janet_ev_threaded_call: msg.argi := flags" || t.2 == "janet_ev_threaded_await: argi := flags") &&
+  ts.contains ("janet_ev_threaded_await", "msg.argi := parameter argi; janet_ev_threaded_call(fp, msg)")
 
 end JanetModel.Sandbox
